@@ -13,7 +13,7 @@ func init() {
 		ID: "C17",
 		Explanation: "Decides structural necessary conditions of atomic publication: " +
 			"(R1) CloseAtomicallyReplace orders fsync (success) < close (success) < rename(temp name, destination) < done flag; Cleanup removes the temp file unless done; " +
-			"(R2) who may rename / write in place: os.Rename is called only by the rename primitive, the temp-dir probe, the symlink helper and the unpack directory move; the covered components (fstree, renameio, utils atomic helpers, updater download) contain no in-place write (os.WriteFile/Create/OpenFile-for-write) to a destination path - only the detached signature file and the extraction into the temp dir are written directly (observations); " +
+			"(R2) who may rename / write in place: os.Rename is called only by the rename primitive, the temp-dir probe (whose two rename operands must be temp files it created itself), the symlink helper and the unpack directory move; the covered components (fstree, renameio, utils atomic helpers, updater download) contain no in-place write (os.WriteFile/Create/OpenFile-for-write) to a destination path - only the detached signature file and the extraction into the temp dir are written directly (observations); " +
 			"(R3) every renameio.TempFile is followed by a deferred Cleanup registered before anything else, every success exit passes CloseAtomicallyReplace, and the data written goes to the pending file; " +
 			"(R4) the download is published only across: copy succeeded, byte count equals Content-Length, and no checksum mismatch under the 'require' policy. " +
 			"NOT decided: file-system semantics, crash states, concurrent readers, the run-time choice of a same-mount temp directory.",
@@ -118,6 +118,26 @@ func c17R2(c *Ctx, r *Report) {
 		cons := ordinal(ord, fnKey(s.Fn)+" / call os.Rename")
 		why, ok := allowedRename[fnKey(s.Fn)]
 		r.Check(ok, rule, cons, "allowed: "+why, "os.Rename is used outside the atomic-replace primitives: a destination can be replaced without the fsync/close protocol", c.Pos(s.Instr.Pos()))
+		if fnKey(s.Fn) == "utils/renameio.tempDir" {
+			// the probe may only touch throw-away files it created itself, never the caller's destination
+			args := s.Instr.(ssa.CallInstruction).Common().Args
+			for i, a := range args {
+				okTmp := false
+				if nm, isCall := a.(*ssa.Call); isCall && calleeName(&nm.Call) == "os.File.Name" && len(nm.Call.Args) == 1 {
+					leaves := c.Leaves(nm.Call.Args[0])
+					okTmp = len(leaves) > 0
+					for _, l := range leaves {
+						ct, idx := callOf(l)
+						if ct == nil || idx != 0 || (calleeName(&ct.Call) != "os.CreateTemp" && calleeName(&ct.Call) != "io/ioutil.TempFile") {
+							okTmp = false
+						}
+					}
+				}
+				r.Check(okTmp, rule, fmt.Sprintf("%s / probe argument #%d is a throw-away temp file", cons, i+1),
+					"name of a file created by os.CreateTemp in the probe itself",
+					"the same-mount probe renames from/to a path it did not create ("+strings.Join(c.Origins(a), "+")+"): the destination is replaced by an empty probe file before the real content arrives", c.Pos(s.Instr.Pos()))
+			}
+		}
 	}
 	// in-place writes
 	writers := []string{"os.WriteFile", "os.Create", "os.OpenFile", "io/ioutil.WriteFile"}
